@@ -152,7 +152,7 @@ func cmdCheck(args []string) int {
 	var wg sync.WaitGroup
 	var mu sync.Mutex
 	_ = mu
-	sem := make(chan struct{}, 8)
+	sem := make(chan struct{}, 1) // VC generation is cheap; the World caches are not concurrency-safe
 	for i, c := range cts {
 		wg.Add(1)
 		sem <- struct{}{}
